@@ -104,6 +104,7 @@ class FunctionEffects:
         self.extra_roots = set(extra_roots)
         self.result_roots = {"F"}
         self._comp_env = {}
+        self.deep_attrs = False
         self.alias = {}           # (scope id, name) -> set of roots
         self.scalars = {}         # scope id -> set of scalar names
         self.summaries = {}       # nested def name -> set of written param positions
@@ -156,10 +157,14 @@ class FunctionEffects:
         if isinstance(e, ast.Starred):
             return self.expr_alias(e.value, scope)
         if isinstance(e, ast.Subscript):
+            if isinstance(e.slice, ast.Tuple):
+                return set()       # two-argument indexing exists only for matrices: a copy
             base = self.expr_alias(e.value, scope)
             # containers hand out their elements; matrices hand out copies
             return {r for r in base if r.split(".")[0] in self.containers or r in self.containers}
         if isinstance(e, ast.Attribute):
+            if getattr(self, "deep_attrs", False) and e.attr not in ("size", "typecode", "name", "T", "H"):
+                return self.expr_alias(e.value, scope)
             return set()
         if isinstance(e, (ast.List, ast.Tuple, ast.Set)):
             out = set()
@@ -210,6 +215,9 @@ class FunctionEffects:
                 return out
             if nm and nm.endswith(".copy"):
                 return set()
+            if getattr(self, "deep_attrs", False) and isinstance(e.func, ast.Attribute) \
+                    and e.func.attr in ("items", "keys", "values", "get", "__getitem__"):
+                return self.expr_alias(e.func.value, scope)
             if nm == "globals":
                 return set()
             return set()
